@@ -10,6 +10,7 @@ import (
 	"runtime/debug"
 	"strconv"
 	"strings"
+	"sync"
 
 	"github.com/ontio/ontology-crypto/ec"
 	"github.com/ontio/ontology-crypto/keypair"
@@ -33,6 +34,7 @@ import (
 //	hdr <ver> <chain> <prev> <txroot> <csroot> <blkroot> <ts> <height> <cdata> <cpayload> <nextbk> -> <hex of Header.Hash()>
 //	env <type> <len> <payload> <inner>  -> ok:<struct> | reject:len | reject:unknown | reject:inner
 //	rt <kind> <seed>                -> ok type=<code> struct=<name> enc=<json|custom>     (round trip of a random message)
+//	held <seed> <n> <goroutines>    -> ok n=<n*goroutines>   (encodings kept across later SerializeVbftMsg calls stay intact and decode)
 //	sigcp <field> <seed>            -> verify=ok | verify=fail      (mutate one field of a signed ConsensusPayload)
 //	sigprop <field> <seed> <emptyParses> -> rejected | accepted:same | accepted:empty-dropped | accepted:changed
 //
@@ -513,6 +515,8 @@ func (f *cmsgFam) Exec(r *hx.Run, op []string) string {
 			enc = "custom"
 		}
 		return fmt.Sprintf("ok type=%d struct=%s enc=%s", env.Type, structName(m2), enc)
+	case "held":
+		return f.held(r, u(op[1]), int(u(op[2])), int(u(op[3])))
 	case "sigcp":
 		return f.sigcp(r, op[1], u(op[2]))
 	case "sigprop":
@@ -523,6 +527,72 @@ func (f *cmsgFam) Exec(r *hx.Run, op []string) string {
 		return out
 	}
 	return "bad-op"
+}
+
+// held serializes n messages back to back from g goroutines and KEEPS every returned byte slice (no copy) next to a
+// private copy made at once; after all calls every kept slice must still equal its copy and must decode to the
+// message it was made from (an encoder that hands out a view of a reused buffer fails here).
+func (f *cmsgFam) held(r *hx.Run, seed uint64, n, g int) string {
+	type rec struct {
+		msg  vbft.ConsensusMsg
+		kept []byte
+		copy []byte
+		kind int
+	}
+	if g < 1 {
+		g = 1
+	}
+	recs := make([][]*rec, g)
+	// messages are built first (deterministically), only the SerializeVbftMsg calls run concurrently
+	rng := hx.NewRng(seed)
+	acc := accs()[rng.Intn(len(accs()))]
+	for w := 0; w < g; w++ {
+		for i := 0; i < n; i++ {
+			k := rng.Intn(10)
+			if rng.Intn(3) == 0 {
+				k = []int{5, 7, 8}[rng.Intn(3)] // small messages: they fit any buffer used before
+			}
+			recs[w] = append(recs[w], &rec{msg: rndMsg(k, hx.NewRng(rng.U64()), acc), kind: k})
+		}
+	}
+	var wg sync.WaitGroup
+	for w := 0; w < g; w++ {
+		wg.Add(1)
+		go func(l []*rec) {
+			defer wg.Done()
+			for _, x := range l {
+				b, err := vbft.SerializeVbftMsg(x.msg)
+				if err != nil {
+					continue
+				}
+				x.kept = b
+				x.copy = append([]byte{}, b...)
+			}
+		}(recs[w])
+	}
+	wg.Wait()
+	bad := 0
+	for w := range recs {
+		for i, x := range recs[w] {
+			if x.kept == nil {
+				continue
+			}
+			if !bytes.Equal(x.kept, x.copy) {
+				bad++
+				r.Viol("C44:serialized-bytes-overwritten", fmt.Sprintf("the bytes returned by SerializeVbftMsg for message %d of goroutine %d (%s) changed after later SerializeVbftMsg calls", i, w, kindNames[x.kind]))
+				continue
+			}
+			m2, err := vbft.DeserializeVbftMsg(x.kept)
+			if err != nil || canonMsg(m2) != canonMsg(x.msg) {
+				bad++
+				r.Viol("C44:held-bytes-do-not-decode:"+kindNames[x.kind], fmt.Sprintf("bytes kept from an earlier SerializeVbftMsg call no longer decode to the message they were made from: %v", err))
+			}
+		}
+	}
+	if bad > 0 {
+		return fmt.Sprintf("changed=%d", bad)
+	}
+	return fmt.Sprintf("ok n=%d", n*g)
 }
 
 var cpFields = []string{"none", "version", "prevHash", "height", "bookkeeperIndex", "timestamp", "data", "data-append", "owner", "signature", "peerId", "wire"}
@@ -893,6 +963,13 @@ func (f *cmsgFam) Gen(r *hx.Run) {
 			out := r.Do(fmt.Sprintf("rt %d %d", k, g.U64()>>1))
 			r.Nontrivial(fmt.Sprintf("rt/%d/%s", k, strings.Fields(out)[0]))
 		}
+	}
+	// --- held bytes: several encodings kept while later ones are made (1 and 2 goroutines)
+	for i := 0; i < r.Pick(40, 1500); i++ {
+		newCase("held")
+		gs := 1 + i%2
+		out := r.Do(fmt.Sprintf("held %d %d %d", g.U64()>>1, 2+g.Intn(7), gs))
+		r.Nontrivial(fmt.Sprintf("held/%d/%s", gs, strings.Fields(out)[0]))
 	}
 	// --- signature binding
 	for i := 0; i < r.Pick(8, 300); i++ {
